@@ -241,6 +241,9 @@ func c05Stats(cases []string) map[string]int {
 			st["closelag.cases"]++
 			continue
 		}
+		if f[0] == "atrace" {
+			st["atrace.jittered_runs.total"] = c05JitterRuns
+		}
 		if f[0] == "strace" {
 			st["strace.cases"]++
 			if len(f) > 2 && strings.HasPrefix(f[2], "1.") {
